@@ -1254,6 +1254,22 @@ def check_hd(ctx, calls, res, with_model=True):
         mfail, mok = coq_failing(ctx, 'ModelHd', mdefs, mitems)
         ctx.notes['hd_model_vs_spec'] = {'calls': len(mitems), 'model_differs_from_spec': len(mfail),
                                          'compiled': mok}
+        # the kernel with the comparisons translated from the current source (gen/HdCfg.v)
+        cdefs = ['From FV.C16 Require Import ModelHdCfg.', 'From FV.C16.gen Require Import HdCfg.'] + defs + [
+            mdefs[-4],
+            'Definition hmdl (dir : bool) (tA tB : tree) (spec : D) : bool :=',
+            '  match hausdorff_cfg gen_hcfg pop_min (S (size tA + size tB)) dir tA tB with',
+            '  | Some h => validb tA && validb tB && Deq_dec_b h (scaleD spec) | None => false end.']
+        cfail, cok = coq_failing(ctx, 'ModelHdCfg', cdefs, mitems)
+        ctx.notes['hd_translated_cfg_model_vs_spec'] = {'calls': len(mitems), 'differs_from_spec': len(cfail),
+                                                         'compiled': cok}
+        if cfail and not mfail:
+            c = meta[sorted(cfail)[0]]
+            ctx.violation('correspondence', {'call': strip(c)},
+                          'hausdorff_cfg gen_hcfg (model with the translated comparisons) = hausdorff_spec',
+                          'differs', 'C16_hausdorff_translated_correct (model evaluation)', found_input=False,
+                          signature={'kind': 'model-vs-spec', 'fn': 'hd-cfg'},
+                          what='Hausdorff model with the comparisons read from the source disagrees with its specification')
         if mfail:
             c = meta[sorted(mfail)[0]]
             ctx.violation('correspondence', {'call': strip(c)}, 'hausdorff (model) = hausdorff_spec',
@@ -1475,6 +1491,14 @@ def translate_loops(ctx):
         ctx.notes['knn_decision_points_source'] = 'read from the source (' + status['_nns_from_nodes_to_nodes'] + ')'
     ctx.notes['knn_decision_points'] = cfg
     lib.write_if_changed(lib.COQ / 'C16' / 'gen' / 'KnnCfg.v', c16_loops.emit(cfg))
+    hcfg = c16_loops.LAST_HCFG[0]
+    if hcfg is None:
+        hcfg = dict(c16_loops.BASELINE_HCFG)
+        ctx.notes['hd_decision_points_source'] = 'baseline (hcfg_code): _calc_directed_hausdorff_nodes could not be read'
+    else:
+        ctx.notes['hd_decision_points_source'] = 'read from the source (' + status['_calc_directed_hausdorff_nodes'] + ')'
+    ctx.notes['hd_decision_points'] = hcfg
+    lib.write_if_changed(lib.COQ / 'C16' / 'gen' / 'HdCfg.v', c16_loops.emit_hd(hcfg))
     for f, sres in unread.items():
         ctx.log('loop translator could not read', f, '->', sres[:300])
     return unread
@@ -1672,7 +1696,7 @@ def main(ctx):
                 o['note'] = 'coqchk failed'
     valid_ok = True
     if bounds_ok:
-        gen_ok, _, _ = lib.coq_make(['C16/gen/Bounds.vo'])
+        gen_ok, _, _ = lib.coq_make(['C16/gen/Bounds.vo', 'C16/gen/HdCfg.vo'])
         if gen_ok:
             try:
                 valid_ok = validate_translation(ctx, pysrc)
